@@ -199,7 +199,7 @@ fn main() {
         tier,
         seed,
         threads,
-        budget: Duration::from_secs(budget.unwrap_or(tier.pick(45, 600))),
+        budget: Duration::from_secs(budget.unwrap_or(tier.pick(150, 600))),
         evidence_path: evidence,
         replay_dir,
         known_findings_path: known,
